@@ -18,7 +18,7 @@ def gen_tree(rng, alg, depth, np):
     canon = list(alg.canon2bin.values())
     r = rng.random()
     if depth <= 0 or r < 0.45:
-        kind = rng.choice(['colour', 'string', 'mv', 'mv', 'mv', 'mv-dense', 'mv-dense-bin', 'mv-nd', 'mv-arr', 'mv-arr-nd'])
+        kind = rng.choice(['colour', 'string', 'mv', 'mv', 'mv', 'mv-dense', 'mv-dense-bin', 'mv-nd', 'mv-arr', 'mv-arr-nd', 'mv-arr-nd2'])
         if kind == 'colour':
             v = rng.choice([0xD0FFE1, 0x224488, 0xFF0000])
             return v, [f'a:{v}'], []
@@ -37,6 +37,16 @@ def gen_tree(rng, alg, depth, np):
             if rng.random() < 0.3: rng.shuffle(ks)
         else:
             ks = rng.sample(range(N), rng.randint(1, min(N, 3)))
+        if kind == 'mv-arr-nd2':
+            # two array axes (a grid of elements): expanded in the order itermv() visits them (C order)
+            n1, n2 = rng.randint(1, 3), rng.randint(2, 3)
+            elems = [[rng.randint(-9, 9) for _ in ks] for _ in range(n1 * n2)]
+            vals = np.array(elems, dtype=float).reshape(n1, n2, len(ks)).transpose(2, 0, 1).copy()
+            if rng.random() < 0.5:
+                vals = [vals[i] for i in range(len(ks))]
+            mv = MultiVector.fromkeysvalues(alg, tuple(ks), vals)
+            tok = 'A:' + ','.join(map(str, ks)) + ':' + ';'.join(','.join(map(str, e)) for e in elems)
+            return mv, [tok], [dense(canon, ks, e) for e in elems]
         if kind in ('mv-arr', 'mv-arr-nd'):
             n = rng.randint(1, 3)
             elems = [[rng.randint(-9, 9) for _ in ks] for _ in range(n)]
@@ -232,6 +242,7 @@ def run(ctx):
             ctx.case(case, tag='multi-drag')
             for rep in range(2):
                 drag_check(ctx, alg, w, case, rng, canon, tok, lines, plan, np)
+    dependent_pass(ctx, np)
     # decode with the front end's own code
     try:
         dec = node_decode(node_cases)
@@ -254,6 +265,66 @@ def run(ctx):
         ctx.count('driver-mismatches', nb)
     ctx.assumptions = ['traitlets observers, binary buffer transport and everything in the browser beyond toElement/decode are trusted',
                        'numpy indexing used by itermv is trusted']
+
+
+def dependent_pass(ctx, np):
+    """callables that compute multivectors from externally held draggable points - at the root (the ganja idiom
+    `alg.graph(lambda: [A, B, A & B])`), as individual subjects and nested - must be re-evaluated after every drag:
+    the synced subjects equal those of a fresh widget over the current values"""
+    from kingdon import MultiVector
+    rng = ctx.rng
+    for sig, basis in (([0, 1, 1], ["e", "e1", "e2", "e0", "e20", "e01", "e12", "e012"]), ([0, 1, 1, 1], None), ([1, 1, 1], None)):
+        alg = make_algebra(sig, None, basis)
+        d = alg.d
+        canon = list(alg.canon2bin.values())
+        pga = alg.r == 1 and d in (3, 4)
+        pk = [k for k in canon if bin(k).count('1') == (d - 1 if pga else 1)]
+        for scenario in ('root-callable', 'subject-callables', 'nested-callable', 'root-callable-tuple'):
+            A = MultiVector.fromkeysvalues(alg, tuple(pk), [float(rng.randint(1, 9)) for _ in pk])
+            B = MultiVector.fromkeysvalues(alg, tuple(pk), [float(rng.randint(1, 9)) for _ in pk])
+            join = (lambda: A & B) if pga else (lambda: A ^ B)
+            fresh = lambda: [A, B, join(), A * B]
+            if scenario == 'root-callable':
+                args = [lambda: [A, B, join(), A * B]]
+            elif scenario == 'root-callable-tuple':
+                args = [lambda: (A, B, join(), A * B)]
+            elif scenario == 'subject-callables':
+                args = [A, B, join, lambda: A * B]
+            else:
+                args = [A, B, [lambda: join(), (lambda: (lambda: A * B))]]
+            case = {'sig': sig, 'basis': basis, 'scenario': 'dependent:' + scenario}
+            try:
+                w = alg.graph(*args)
+                w.subjects
+                for step in range(3):
+                    idxs = list(w.draggable_points_idxs)
+                    pre = w.pre_subjects
+                    targets = [pre[j] for j in idxs]
+                    if [id(t) for t in targets] != [id(A), id(B)]:
+                        # derived elements happen to be draggable as well in non-PGA algebras: drag the points only
+                        if len(targets) < 2 or targets[0] is not A or targets[1] is not B:
+                            ctx.count('dependent-skipped')
+                            break
+                    w.draggable_points = [{'mv': [float(rng.randint(-9, 9)) for _ in canon]} for _ in targets]
+                    ctx.case({**case, 'drag': step}, tag='dependent-drag')
+                    got = ' '.join(render_payload(x, np) for x in flat(w.subjects))
+                    exp = ' '.join(render_payload(x, np) for x in flat(alg.graph(*fresh()).subjects))
+                    if got != exp:
+                        ctx.violation('dependent-not-reevaluated', {**case, 'drag': step}, exp[:400], got[:400], key=f'drag:dependent:{scenario}')
+                        break
+            except Exception as e:
+                ctx.violation('graph-raises', case, 'a payload', repr(e)[:200], key='widget:raises')
+
+
+def flat(x):
+    """the payload leaves (dicts, atoms) of a subject tree, in order"""
+    out = []
+    for e in x:
+        if isinstance(e, (list, tuple)):
+            out.extend(flat(e))
+        else:
+            out.append(e)
+    return out
 
 
 def drag_check(ctx, alg, w, case, rng, canon, tok, lines, plan, np):
